@@ -42,11 +42,11 @@ BOUNDS = {
              'compute_mutation_parents: all 3-node 2-edge tree sequence classes x 2 sites x 2 mutations (site/node '
              'enumerated, stale parent values). canonicalise: one 4-node collection with a chain of 3 nested mutations '
              '(unknown times, deeper mutation on the lower node id) at one site and a lone mutation at another, 2 sites with '
-             'symbolic distinct positions, 2 edges, 2 individuals, 2 populations; 12 mutation row orders x edge / site / '
+             'symbolic distinct positions, 2 edges, 2 individuals (a child listed before its parent in the logical order) and 2 populations; 12 mutation row orders x edge / site / '
              'individual / population row swaps',
     'thorough': 'plus 4 edges, 3 sites x 3 mutations, and 4-node 3-edge tree sequences (time-boxed)',
 }
-OUTSIDE = ['canonicalise beyond the one enumerated collection (other shapes, migrations, known mutation times, individual parents)', 'compute_mutation_times', 'deduplicate_sites beyond 3 sites / squash beyond 3 edges of one parent',
+OUTSIDE = ['canonicalise beyond the one enumerated collection (other shapes, migrations, known mutation times, deeper pedigrees)', 'compute_mutation_times', 'deduplicate_sites beyond 3 sites / squash beyond 3 edges of one parent',
            'qsort orders among equal keys other than the stable one', 'individual sorting']
 ASSUMPTIONS = ['comparator kernel: the mutations of one site have all-known or all-unknown times (data-model rule; with mixed times cmp_mutation is not transitive - harness self-test MIXED_TIMES)', 'no NaN among node times, positions, left coordinates', 'qsort is modelled as a stable insertion sort (engine/shim.c)', 'documented key orders from TableCollection.sort docstring']
 MANIFEST = dict(
